@@ -35,8 +35,18 @@ into a temporary copy before it calls the reader; the reader identifies its task
 gate (so the forced completion orders make a later task decompress, read and finish while an earlier one is still
 inside its reader) and only THEN reads the copy for good: a decompression target shared between tasks shows up as
 a foreign content or a vanished file.
+
+Extra arguments (case["argform"]): the call gets `args` in one of the forms the API accepts (a tuple, a LIST, None) and
+`kwargs` (a dict or None); the mapped function `func_record` writes down exactly what it was called with -- every
+positional argument as a pair (0, tag) one of the caller's own arguments / (1, k) the content of task k in the right
+container / (2, k) the FileInfo (or bundle) of task k / (4, k), (5, k) a wrong composition / (9, 0) anything else --
+and its keyword arguments; after the call the harness describes what the caller's `args` object and `kwargs` dict
+hold now.  The task a call belongs to is known from OUTSIDE the arguments (the logging executor tags the wrapper call
+with the task it submitted it for), so a function that is handed the file arguments of other tasks is still attributed
+to its own task.
 """
 import datetime as dt
+import functools
 import gzip
 import json
 import os
@@ -153,6 +163,7 @@ class Recorder:
         self.pools = []             # executor classes instantiated by the consumer thread (the top-level pools)
         self.member_evt = {}        # (name, pos) -> threading.Event: the read of this member has ended
         self.member_lock = threading.Lock()
+        self.callrecs = {}          # task key -> [[positional description, keyword description], ...] (func_record)
 
     def new_event(self):
         return threading.Event()
@@ -184,6 +195,10 @@ class Recorder:
         with self.lock:
             self.args[key] = list(got)
             self.kinds[key] = kind
+
+    def note_call(self, key, desc, kdesc):
+        with self.lock:
+            self.callrecs.setdefault(tuple(key), []).append([desc, kdesc])
 
     # member reads of one bundle (always inside one process: plain threading events, created on demand)
     def _mevt(self, mkey):
@@ -361,6 +376,117 @@ def _func_body(key, ok):
     return 1000 + k if ok else -7
 
 
+
+# ----------------------------------------------------------------------------- extra arguments (args= / kwargs=)
+
+TLS = threading.local()     # .key: the task the running wrapper call was submitted for (set by _tagged)
+
+
+class Extra:
+    """One of the caller's own positional / keyword arguments (picklable; told apart by its tag)."""
+
+    def __init__(self, tag):
+        self.tag = tag
+
+
+def _tagged(key, fn, *a, **k):
+    TLS.key = key
+    try:
+        return fn(*a, **k)
+    finally:
+        TLS.key = None
+
+
+def _is_content(x):
+    one = lambda c: isinstance(c, dict) and "pos" in c and "name" in c      # noqa: E731
+    return one(x) or (isinstance(x, (list, tuple)) and len(x) > 0 and all(one(c) for c in x))
+
+
+def _describe_arg(a):
+    """One positional argument (or one entry of the caller's args object) as a pair of integers, see the module text."""
+    try:
+        if isinstance(a, Extra):
+            return [0, int(a.tag)]
+        name = None
+        if hasattr(a, "path"):
+            name = CASE["_name_of_dir"].get(str(Path(a.path).parent), "p")
+            key = CUR.key_of_path.get((name, a.path))
+            if key is None:
+                return [9, 0]
+            bundled = CASE["sets"][name].get("select") in ("bundles", "bundle_n")
+            return [5 if bundled else 2, key[1]]
+        if isinstance(a, (list, tuple)) and len(a) > 0 and all(hasattr(x, "path") for x in a):
+            name = CASE["_name_of_dir"].get(str(Path(a[0].path).parent), "p")
+            key = CUR.key_of_path.get((name, a[0].path))
+            if key is None:
+                return [9, 0]
+            bundled = CASE["sets"][name].get("select") in ("bundles", "bundle_n")
+            want = [CASE["_path_of_pos"][name][p] for p in CASE["_stream"][name][key[1]]]
+            return [2 if bundled and [x.path for x in a] == want else 5, key[1]]
+        if _is_content(a):
+            first = a if isinstance(a, dict) else a[0]
+            name = first["name"]
+            key = CUR.key_of_path[(name, CASE["_path_of_pos"][name][first["pos"]])]
+            want = [p for p in CASE["_stream"][name][key[1]] if p not in CASE["_rnone"][name]]
+            bundled = CASE["sets"][name].get("select") in ("bundles", "bundle_n")
+            ok = _positions(a) == list(want) and _content_kind(a) == ("list" if bundled else "bare")
+            return [1 if ok else 4, key[1]]
+    except Exception:   # noqa
+        pass
+    return [9, 0]
+
+
+def _describe_kw(kwargs):
+    out = []
+    for k, v in kwargs.items():
+        ki = int(k[1:]) if isinstance(k, str) and k[:1] == "k" and k[1:].isdigit() else 99
+        out.append([ki, int(v.tag) if isinstance(v, Extra) else -1])
+    return sorted(out)
+
+
+def expected_call(case, k):
+    """What the function of task k must be called with (the same rule as task_arguments of Model/C10_args.v; the
+    verdict comes from Coq, this is the function's own yes / no that decides between 1000 + k and -7)."""
+    af = case["argform"]
+    pos = [[0, v] for v in af["vals"]] if af["args"] != "none" else []
+    if case["on_content"]:
+        pos.append([1, k])
+    if not case["on_content"] or case["pass_info"]:
+        pos.append([2, k])
+    return pos, sorted([list(x) for x in (af.get("kw") or [])])
+
+
+def func_record(*args, **kwargs):
+    """The mapped function of the cases with extra arguments: records exactly what it received."""
+    desc = [_describe_arg(a) for a in args]
+    kdesc = _describe_kw(kwargs)
+    key = getattr(TLS, "key", None)
+    if key is None:
+        # not tagged (should not happen): the task of the last file argument
+        for d in reversed(desc):
+            if d[0] in (1, 2):
+                key = ("p", d[1])
+                break
+    if key is None:
+        CUR.note_call(("p", -1), desc, kdesc)
+        raise FuncErr(-3)
+    CUR.note_call(key, desc, kdesc)
+    if not CASE["on_content"]:
+        CUR.gate(key)
+    else:
+        # what the existing laws on contents look at: the content argument where it has to be
+        af = CASE["argform"]
+        at = len(af["vals"]) if af["args"] != "none" else 0
+        cand = [a for a in args[at:at + 1] if _is_content(a)] or [a for a in args if _is_content(a)]
+        if cand:
+            try:
+                CUR.note_args(key, _positions(cand[0]), _content_kind(cand[0]))
+            except Exception:   # noqa
+                pass
+    pos, kw = expected_call(CASE, key[1])
+    return _func_body(key, desc == pos and kdesc == kw)
+
+
 # ----------------------------------------------------------------------------- executors
 
 def _in_consumer():
@@ -395,6 +521,9 @@ def make_pool_class(base):
                 key = None
             if key is not None:
                 CUR.log("submit", key)
+                if CASE.get("argform"):
+                    # tell the wrapper call which task it was submitted for (see func_record)
+                    fn = functools.partial(_tagged, key, fn)
             fut = super().submit(fn, *args, **kwargs)
             if key is not None:
                 fut.add_done_callback(lambda f, key=key: CUR.release(key))
@@ -463,7 +592,8 @@ def prepare(case, root):
         for mi in order:
             case["_member_pred"][("p", bundle[mi])] = prev
             prev = bundle[mi]
-    case["_finish_in_reader"] = case["api"] in ("icollect", "collect", "align") or bool(case.get("passthrough"))
+    case["_finish_in_reader"] = (case["api"] in ("icollect", "collect", "align") or bool(case.get("passthrough"))) \
+        and not case.get("argform")
     case["fraise"] = set(case.get("fraise", []))
     case["fnone"] = set(case.get("fnone", []))
 
@@ -588,6 +718,7 @@ def run_case(case, root, new_recorder=Recorder):
     obs["kinds"] = {f"{k[0]}:{k[1]}": v for k, v in dict(CUR.kinds).items() if not k[0].startswith("own:")}
     obs["own"] += [[k[1], v] for k, v in sorted(dict(CUR.args).items()) if k[0].startswith("own:")]
     obs["pools"] = list(CUR.pools)
+    obs["calls"] = {f"{k[0]}:{k[1]}": v for k, v in dict(CUR.callrecs).items()}
     for k in [k for k in case if k.startswith("_")]:
         del case[k]
     case["fraise"], case["fnone"] = sorted(case["fraise"]), sorted(case["fnone"])
@@ -618,6 +749,16 @@ def _run_map_like(case, obs, FileSet, FileHandler):
             kw.update(args=(17,), kwargs={})
     else:
         kw.update(error_to_warning=case["e2w"], return_info=case["return_info"])
+    af = case.get("argform")
+    given = kwd = None
+    if af:
+        # extra arguments in the form the case asks for; collect() / icollect() take func=, args=, kwargs= as well
+        extra = [Extra(v) for v in af["vals"]]
+        given = None if af["args"] == "none" else (tuple(extra) if af["args"] == "tuple" else list(extra))
+        kwd = None if af.get("kw") is None else {f"k{i}": Extra(v) for i, v in af["kw"]}
+        kw.update(func=func_record, args=given, kwargs=kwd)
+        if case["on_content"]:
+            kw.update(pass_info=case["pass_info"])
 
     def note(item, info_expected):
         """log the yield of one item and append its canonical value"""
@@ -667,6 +808,11 @@ def _run_map_like(case, obs, FileSet, FileHandler):
                     note(item, False)
     except Exception as e:   # noqa
         obs["err"] = err_code(e)
+    if af:
+        # what the caller's own objects hold after the call
+        obs["args_after"] = None if given is None else [_describe_arg(x) for x in given]
+        obs["kwargs_after"] = None if kwd is None else _describe_kw(kwd)
+        obs["args_type_kept"] = given is None or type(given) is (tuple if af["args"] == "tuple" else list)
 
 
 def _run_align(case, obs, FileSet, FileHandler):
@@ -719,6 +865,7 @@ class ManagerRecorder(Recorder):
         self.m_finished = m.dict()
         self.m_stuck = m.list()
         self.m_args = m.list()
+        self.m_callrecs = m.list()
         self.m_lock = m.Lock()
         self.abort = m.Event()
 
@@ -760,7 +907,12 @@ class ManagerRecorder(Recorder):
     def note_stuck(self, item):
         self.m_stuck.append(item)
 
+    def note_call(self, key, desc, kdesc):
+        self.m_callrecs.append((key[0], key[1], desc, kdesc))
+
     def collect_back(self):
+        for a, b, desc, kdesc in list(self.m_callrecs):
+            self.callrecs.setdefault((a, b), []).append([desc, kdesc])
         self.events = [tuple(e) for e in list(self.m_events)]
         self.stuck = list(self.m_stuck)
         for a, b, got, kind in list(self.m_args):
@@ -808,6 +960,7 @@ def run_case_with_sync(case, root, new, holder):
     obs["kinds"] = {f"{k[0]}:{k[1]}": v for k, v in dict(CUR.kinds).items() if not k[0].startswith("own:")}
     obs["own"] += [[k[1], v] for k, v in sorted(dict(CUR.args).items()) if k[0].startswith("own:")]
     obs["pools"] = list(CUR.pools)
+    obs["calls"] = {f"{k[0]}:{k[1]}": v for k, v in dict(CUR.callrecs).items()}
     for k in [k for k in case if k.startswith("_")]:
         del case[k]
     case["fraise"], case["fnone"] = sorted(case["fraise"]), sorted(case["fnone"])
